@@ -35,3 +35,26 @@ Example C10_former_panics :
   read_file [91;102;108;97;103;115;93;32;101;110;117;109;32;69;58;105;110;116;51;50;32;123;65;32;61;32;49;32;60;60;32;45;49;59;125]%N false = PErr.
 Proof. split; [eexists; split; [reflexivity|vm_compute; reflexivity]|vm_compute; reflexivity]. Qed.
 Print Assumptions C10_no_panic.
+
+(* The tokenizer model's lexical tables ARE the source's (front/TokTie.v over gen/TokTable.v, which translator T6 regenerates
+   from token.go and tokenize.go on every run): the kind numbers; the keyword map, both ways; at each of the 7 nodes of the
+   model's token tree and each of the 256 byte values, what the model does (no successor / descend to which node / build
+   which kind of token) is what newTokenTree's tree has at that path, and every inner node of that tree is a node of the
+   model; the skipped bytes; the byte chosen by the greedy error correction, which always has a successor. *)
+Require Import Bebop.gen.TokTable Bebop.front.TokTie.
+Definition C10_tables_statement : Prop :=
+  (forall w k, In (w, k) go_keywords -> keyword w = k /\ k <> kIdent) /\
+  (forall c, keyword c <> kIdent -> In (c, keyword c) go_keywords) /\
+  (forall n b, (b < 256)%N -> succ_tie n b = true) /\
+  (forall e q, In e go_tree -> In q (proper_prefixes (fst e)) -> exists n, path_of n = q) /\
+  (forall n b, (b < 256)%N -> skips n b = match n with NRoot => existsb (N.eqb b) go_skips | _ => false end) /\
+  (forall n, n <> NRoot -> first_valid n = go_first_valid (path_of n) /\ succ n (first_valid n) <> NoSucc) /\
+  (kIdent = go_tokenKindIdent /\ kInt = go_tokenKindIntegerLiteral /\ kString = go_tokenKindStringLiteral /\ kNewline = go_tokenKindNewline /\
+   kLineC = go_tokenKindLineComment /\ kBlockC = go_tokenKindBlockComment).
+Theorem C10_tables : C10_tables_statement.
+Proof.
+  split; [exact keywords_sound|]. split; [exact keywords_complete|]. split; [exact tree_tie|]. split; [exact tree_nodes|].
+  split; [exact skips_tie|]. split; [intros n Hn; split; [exact (first_valid_tie n Hn)|exact (first_valid_has_successor n Hn)]|].
+  repeat split; reflexivity.
+Qed.
+Print Assumptions C10_tables.
